@@ -222,7 +222,7 @@ def shard(sh: Shard, seed, lo, hi):
 
 def main(tier, seed):
     run = Run("C15", tier, seed, "exploration")
-    per = 60 if tier == "quick" else 900
+    per = 120 if tier == "quick" else 4000
     jobs = [{"seed": seed, "lo": i * per, "hi": (i + 1) * per} for i in range(NCPU)]
     run.absorb(run_shards("checks.c15", "shard", jobs, timeout=3000))
     for m in ("none", "id", "id-absent", "addr", "addr+id"):
